@@ -149,8 +149,11 @@ def do_thread_plan(world, plan):
         # whoever gets hold of the metadata gets it complete (attribute names in declaration order, key, frozen)
         out["md"] = [type(md).__name__, list(getattr(md, "attrs", {}) or {}), repr(getattr(md, "key", None)),
                      sorted(getattr(md, "annotations", {}) or {})]
+        # ... and the class it came from is complete: whoever has seen the metadata finds the generated methods
+        out["helpers_visible"] = [n for n in ("update", "transform", "reset", "__spec_class_init__") if not hasattr(Host, n)]
     elif use == "fields_lookup":
         out["fields"] = [f.name for f in dataclasses.fields(Host)] if plan.get("dc") else sorted(Host.__dataclass_fields__)
+        out["helpers_visible"] = [n for n in ("update", "transform", "reset", "__spec_class_init__") if not hasattr(Host, n)]
     elif use == "hasattr":
         out["has"] = hasattr(Host, "__spec_class__")
         out["has_attrs"] = list(getattr(Host.__dict__.get("__spec_class__"), "attrs", None) or [])
